@@ -847,7 +847,7 @@ func runForward(t *tr.Trace, r *tr.Rand, n int) {
 					case 1:
 						rate0 = []uint64{0, 1, 9599, 9600, 9601}[r.Intn(5)]
 					case 2:
-						rate0 = []uint64{1<<30 - 1, 1 << 30, 1<<30 + 1, 1 << 40}[r.Intn(4)]
+						rate0 = []uint64{1<<30 - 1, 1 << 30, 1<<30 + 1, 1 << 40, (1 << 30) * 256 / 269, (1<<30)*256/269 + 1, 1<<30 - uint64(r.Range(2, 50000000))}[r.Intn(7)]
 					case 3:
 						rate0 = uint64(r.Range(0, 9600))
 					}
@@ -855,7 +855,18 @@ func runForward(t *tr.Trace, r *tr.Rand, n int) {
 					if r.Chance(1, 3) {
 						loss = []uint8{0, 4, 5, 6, 25, 26, 27, 255}[r.Intn(8)]
 					}
-					h.updrate(rate0, r.Chance(1, 5), loss, uint32(r.Range(0, 400000)))
+					est := uint32(r.Range(0, 400000))
+					if r.Bool() {
+						// the sender really uses the ceiling (actual >= 3/4 of it): the
+						// branch that RAISES the ceiling, also right below its maximum
+						if want := rate0*3/32 + uint64(r.Range(0, 2000)); want < 1<<32 {
+							est = uint32(want)
+						}
+						if r.Bool() {
+							loss = uint8(r.Intn(5))
+						}
+					}
+					h.updrate(rate0, r.Chance(1, 5), loss, est)
 					// updateRate moved the loss-based maximum and the driver moved
 					// the estimator: fix the inputs of adjustLayer again
 					h.rates(uint32(r.Range(0, 300000)), "524288", 524288, false, uint64(r.Intn(2)*r.Range(1, 4000000)))
